@@ -9,7 +9,8 @@ from lib import gen_db, gen_sol, gen_evid
 from lib.runner import Result, V
 
 ID = "C15"
-CASE_TIMEOUT = 120
+ISOLATE = True
+CASE_TIMEOUT = 60
 RULE = ("case = gene (toy, generated, small shipped) x fixed structure x planted alleles x noisy table of qualifying observations x two "
         "different sets of non-qualifying observations (below min_quality or below min_mapq) added anywhere - at catalogue sites of "
         "candidate alleles, as whole new variant keys, as extra reference reads - x thresholds min_quality/min_mapq in 0-40, min_coverage "
@@ -29,7 +30,68 @@ def summarize_minor(sols):
                    round(s.score, 9)) for s in sols)
 
 
+def run_sample(case):
+    """Second layer: the same relation through Sample/genotype(): error-free reads of a planted genotype, plus reads of ANOTHER
+    allele combination whose base qualities or mapping quality are below the thresholds."""
+    import os
+    import pysam
+    from aldy.gene import Gene
+    from aldy.genotype import genotype
+    from aldy.common import AldyException
+    from lib import simreads
+    from lib.runner import scratch
+    from props import C01
+
+    d = scratch()
+    db = os.path.join(d, "c15.yml")
+    gen_db.write(case["db"], db)
+    gene = Gene(db, genome=case["build"])
+    dflt = natsorted(mn for a in gene.alleles.values() if a.cn_config == "1" for mn in a.minors)
+    good = [simreads.allele_copy(gene, dflt[i % len(dflt)])[:2] for i in case["good"]]
+    junk = [simreads.allele_copy(gene, dflt[i % len(dflt)])[:2] for i in case["junk"]]
+    sim = simreads.Sim(gene, seed=case["seed"])
+    rl, step = case["rl"], max(1, case["rl"] // 20)
+    clean = sim.sample_reads(good, rl, step, skip=("neutral", "pseudo"))
+    lowq = case["lowkind"]
+    jr = []
+    for (nm, pos, cig, sq) in sim.sample_reads(junk, rl, step * case["thin"], skip=("neutral", "pseudo")):
+        if lowq == "mapq":
+            jr.append(("j" + nm, pos, cig, sq, 0, 5, None))
+        else:
+            jr.append(("j" + nm, pos, cig, sq, 0, 60, pysam.qualitystring_to_array(chr(33 + 5) * len(sq))))
+    b1, b2 = os.path.join(d, "clean.bam"), os.path.join(d, "polluted.bam")
+    sim.write(b1, clean)
+    sim.write(b2, clean + jr)
+    out = []
+    for b in (b1, b2):
+        try:
+            res = genotype(db, b, None, output_file=None, cn_solution=["1", "1"], genome=case["build"], solver="cbc", phase=case["phase"])
+            sols = [x for v in res.values() for x in v]
+            out.append((sorted((tuple(sorted((a.major, a.minor, tuple(sorted(map(tuple, a.added))), tuple(sorted(map(tuple, a.missing)))) for a in x.solution)),
+                                round(x.score, 6), round(x.major_solution.score, 6)) for x in sols)))
+        except AldyException as e:
+            out.append("error:" + str(e)[:60])
+    labels = ["sample-layer", "low:" + lowq, "phase" if case["phase"] else "nophase"]
+    viol = []
+    if out[0] != out[1]:
+        same_alleles = not isinstance(out[0], str) and not isinstance(out[1], str) and [x[0] for x in out[0]] == [x[0] for x in out[1]]
+        what = "scores" if same_alleles else "alleles"
+        # NOT judged: the property quantifies over evidence tables handed to estimate_major / estimate_minor.  At the alignment level
+        # two mechanisms outside those tables let sub-threshold reads through - phase records are collected from all reads, and
+        # indel support comes from the realignment library's own counts - so divergences here are counted as observations only
+        # (DESIGN.md 12.4) and never reported as violations.
+        labels.append(f"observation:sample-layer-divergence:{what}:{lowq}:{'phase' if case['phase'] else 'nophase'}")
+    differ = {tuple(m) for _, ms in good for m in ms} != {tuple(m) for _, ms in junk for m in ms}
+    return Result(viol, labels, differ)
+
+
 def run_case(case):
+    if case.get("kind") == "sample":
+        return run_sample(case)
+    return run_table(case)
+
+
+def run_table(case):
     from aldy.profile import Profile
     from aldy.solutions import CNSolution
     from aldy.major import estimate_major
@@ -184,7 +246,13 @@ def strategy(tier):
             d["db"] = gen_db.db_specs(gaps=False, pseudo=True, force_sv=True, small=True, max_sites=6, max_alleles=6)
         return st.fixed_dictionaries(d)
 
-    return st.sampled_from(["toy", "gen", "gen", "gen", "cyp2c19", "nat2", "tpmt", "cyp2a6"]).flatmap(for_gene)
+    table = st.sampled_from(["toy", "gen", "gen", "gen", "cyp2c19", "nat2", "tpmt", "cyp2a6"]).flatmap(for_gene)
+    sample = st.fixed_dictionaries({
+        "kind": st.just("sample"), "db": gen_db.db_specs(gaps=False, sv=False, pseudo=False, small=True, max_sites=6, max_alleles=6),
+        "build": st.sampled_from(["hg19", "hg38"]), "good": st.lists(st.integers(0, 30), min_size=2, max_size=2),
+        "junk": st.lists(st.integers(0, 30), min_size=1, max_size=2), "rl": st.sampled_from([50, 100]), "thin": st.sampled_from([1, 2, 4]),
+        "lowkind": st.sampled_from(["mapq", "baseq"]), "phase": st.booleans(), "seed": st.integers(0, 10 ** 6)})
+    return st.sampled_from(["t"] * 5 + ["s"]).flatmap(lambda k: table if k == "t" else sample)
 
 
 def budget(tier):
